@@ -15,7 +15,8 @@ META = {
              "Shape, Transpose, Gemm, all reductions (Reduce*, ArgMax/ArgMin; code with fix F72), the broadcasting rule BinaryOp and "
              "MatMul (under the hypothesis excluding the known finding F70), and Add/Sub/Mul/Div/Equal on shape-carrying scalars and "
              "vectors incl. the one-element broadcasting of symbolic_binary_op (Equal for C11's fixed SymExpr::range; refuted for the "
-             "old one), and Gather (vector elements by constant indices + shape rule). `_refuted` witnesses for every finding (F5 Equal, F70, F71 Where, F72 reductions, F77 Squeeze). NOT proved, "
+             "old one), Gather (vector elements by constant indices + shape rule), and MaxPool/AveragePool (output_size arithmetic incl. the "
+             "ceil_mode cap: counts window positions, the built expression evaluates to it, NCHW with explicit pads). `_refuted` witnesses for every finding (F5 Equal, F70, F71 Where, F72 reductions, F77 Squeeze). NOT proved, "
              "only modelled and tied: Where, Concat, Squeeze, Unsqueeze, ConstantOfShape, Range, Size. On every run: "
              "(a) model vs the real inference rules and reference semantics vs the real operators on generated cases; (b) for ALL "
              "operators offering inference (deserialised by the real ONNX registry): infer, instantiate under 8 assignments (0, 1, "
@@ -23,7 +24,8 @@ META = {
              "model. Findings: 4 repaired by fix commits of this group (Where, reductions, Slice, Squeeze), 2 executor defects found here "
              "(div/pow result rank) and F5 (Equal via SymExpr::range) repaired on main by the ops and C11 groups, 5 recorded as known (F70 Broadcast(0,1) evaluates to max, F73 symbolic Range "
              "length, F75 symbolic Slice size, F76 SkipLayerNormalization placeholders, F78 Reshape with symbolic 0/-1: pinned by unit "
-             "tests or owned by C11's model) and reported as KNOWN-FINDING only for instantiations inside the recorded class."),
+             "tests or owned by C11's model; F82 ceil-mode pooling with end padding > kernel: executor defect found by the small-scope "
+             "pooling enumeration, fix committed, known until it is on main) and reported as KNOWN-FINDING only for instantiations inside the recorded class."),
     "note": ("Trusted: Coq kernel; the correspondence sample (a test); the hook and harness; exec_ref (tied to the kernels only by the "
              "sample). Consistency hypotheses: input expressions evaluate without i32 overflow, positive symbols >= 0, Broadcast "
              "operands compatible; conclusions use release-build i32 evaluation; expressions with SymbolGen symbols make no claim. "
@@ -59,6 +61,9 @@ THEOREMS = ["C10_infer_sound_Unary",
             "C10_infer_sound_Div",
             "C10_infer_sound_Equal",
             "C10_infer_sound_Gather",
+            "C10_pool_out_counts_windows",
+            "C10_out_size_expr_eval",
+            "C10_infer_sound_Pool",
             "C10_F5_equal_fold_refuted",
             "C10_F5_Equal_refuted",
             "C10_F71_Where_refuted",
@@ -74,6 +79,7 @@ CLASSES = {
     "F76": ("nohit_F76", None),
     "F78": ("nohit_F78", None),
     "F5": ("nohit_F5", None),
+    "F82": ("nohit_F82", None),
 }
 
 
@@ -157,7 +163,7 @@ def main(ctx):
     if pf:
         sub = [cases[i] for i in pf]
         st = [c["term"] for c in sub]
-        flags = " ".join("true" if known_status(f) else "false" for f in ("F70", "F73", "F75", "F76", "F78", "F5"))
+        flags = " ".join("true" if known_status(f) else "false" for f in ("F70", "F73", "F75", "F76", "F78", "F5", "F82"))
         excl = "(prop_ok_excl_k %s)" % flags
         unexplained, _, err = ctx.coq_eval_cases(GROUP, REQ, st, excl, "nohit_F5", shard=150, tag="excl")
         if err:
